@@ -35,8 +35,9 @@ func (r *Runtime) builtinJSON_parse(call FunctionCall) Value {
 
 	var reviver func(FunctionCall) Value
 
-	if arg1 := call.Argument(1); arg1 != _undefined {
-		reviver, _ = arg1.ToObject(r).self.assertCallable()
+	// a reviver that is not callable (null, a number, a plain object, ...) is ignored
+	if arg1, ok := call.Argument(1).(*Object); ok {
+		reviver, _ = arg1.self.assertCallable()
 	}
 
 	if reviver != nil {
